@@ -111,7 +111,7 @@ def hostile_program(rnd, p):
     names = ["x%d" % i for i in range(n)]
     for j in range(rnd.randint(0, 6)):
         a, b = rnd.choice(names), rnd.choice(names)
-        k = rnd.choice([0, 1, -1, 2, p, p + 1, -p, 1 << 260, 3])
+        k = rnd.choice([0, 1, -1, 2, p, p + 1, -p, 1 << 260, 3, 1 << 61, (1 << 61) - 1, (1 << 61) + 1, 1 << 122, (1 << 61) - 2])   # hash(2**61) == hash(1)
         st = rnd.choice(["{a} * {b}", "{a} + {b}", "{a} - {b}", "{a} * %d" % k, "{a} + %d" % k, "{a} - {a}", "{a} * {a} - {b}",
                          "({a} - {a}) * {b}", "{a} * 0 + {b}", "{a} + LinComb.ZERO", "{a} - LinComb.ZERO", "LinComb.ZERO + {a}", "LinComb.ZERO - {a}",
                          "{a} * {b} + LinComb.ZERO * 5", "({a} + {b}) + ({a} - {a})", "{a} + ({a} * 2 + {b})", "({a} * 2 + {b}) + {a}", "ConstVal(%d) * {a}" % k, "{a} * ConstVal(12)",
